@@ -683,6 +683,9 @@ type AbacoSource struct {
 	readPeriod   time.Duration
 	buffersChan  chan AbacoBuffersType
 	eTrigPackets []*packets.Packet // Unprocessed packets with external trigger info
+	// readerFrameNum counts the frames the reader goroutine has handed on. It is the reader's own copy:
+	// nextFrameNum is advanced by the block-assembly goroutine and must not be read from the reader.
+	readerFrameNum FrameIndex
 
 	unwrapOpts AbacoUnwrapOptions
 	AnySource
@@ -819,7 +822,7 @@ func (as *AbacoSource) distributePackets(allpackets []*packets.Packet, now time.
 		cidx := gIndex(p)
 		grp := as.groups[cidx]
 		grp.enqueuePacket(p, now)
-		grp.updateFrameTiming(p, as.nextFrameNum)
+		grp.updateFrameTiming(p, as.readerFrameNum)
 	}
 }
 
@@ -849,6 +852,7 @@ func (as *AbacoSource) Sample() error {
 	}
 
 	// Now sort the packets received into the right AbacoGroups
+	as.readerFrameNum = as.nextFrameNum
 	as.nchan = 0
 	as.groups = make(map[GroupIndex]*AbacoGroup)
 	for range as.producers {
@@ -1083,6 +1087,7 @@ awaitmoredata:
 			}
 			droppedFrames = 0
 			droppedBytes = 0
+			as.readerFrameNum += FrameIndex(framesToDeMUX)
 			if bytesProcessed > 0 {
 				timeout.Reset(timeoutPeriod)
 			}
